@@ -853,6 +853,7 @@ class History:
             "scatter_points(W>E)": lambda: vd.scatter_points(bad_region, 5, random_state=0),
             "Trend.grid(W>E)": lambda: vd.Trend(1).fit(c, d).grid(region=bad_region, spacing=20.0),
             "Trend.grid(both)": lambda: vd.Trend(1).fit(c, d).grid(region=region, spacing=20.0, shape=(3, 3)),
+            "Trend.grid(neither)": lambda: vd.Trend(1).fit(c, d).grid(region=region),
             "BlockReduce.filter(data shape)": lambda: vd.BlockReduce(np.mean, spacing=20.0).filter(c, np.ravel(d)[:-1]),
             "BlockReduce.filter(weight count)": lambda: vd.BlockReduce(np.average, spacing=20.0).filter(c, d, (np.ones(d.shape), np.ones(d.shape))),
             "train_test_split(data shape)": lambda: vd.train_test_split(c, np.ravel(d)[:-1], random_state=0),
